@@ -401,6 +401,23 @@ func registerSDK(e *Engine) {
 		}
 		return nil
 	}
+	// authz.NewMsgExec packs the inner messages into protobuf Any values; the repository's ante
+	// code only looks at the dynamic type of a message, so the wrapper is modelled as a MsgExec
+	// value with the grantee set and an opaque message list.
+	in["github.com/cosmos/cosmos-sdk/x/authz.NewMsgExec"] = func(p *Path, a []Value) Value {
+		pk := p.eng.ssaPkg("github.com/cosmos/cosmos-sdk/x/authz")
+		mt := pk.Type("MsgExec").Type()
+		st := mt.Underlying().(*types.Struct)
+		hv := zeroValue(mt).(*VStruct)
+		fs := make([]Value, len(hv.F))
+		copy(fs, hv.F)
+		for i := 0; i < st.NumFields(); i++ {
+			if st.Field(i).Name() == "Grantee" {
+				fs[i] = in["(github.com/cosmos/cosmos-sdk/types.AccAddress).String"](p, []Value{a[0]})
+			}
+		}
+		return &VStruct{F: fs}
+	}
 	in["github.com/cosmos/cosmos-sdk/store/types.PrefixEndBytes"] = func(p *Path, a []Value) Value { return p.prefixEndBytes(a[0]) }
 	in["github.com/cosmos/cosmos-sdk/types.PrefixEndBytes"] = func(p *Path, a []Value) Value { return p.prefixEndBytes(a[0]) }
 	in["github.com/cosmos/gogoproto/proto.EnumName"] = func(p *Path, a []Value) Value {
